@@ -224,6 +224,9 @@ func init() {
 		"vKnown": func(e *Engine, caller *frame, fn *ssa.Function, args []Value) Value {
 			return e.tt.Bool(e.cfg.Known[concreteStr(e, args[0], "finding id")])
 		},
+		"vFloatSame": func(e *Engine, caller *frame, fn *ssa.Function, args []Value) Value {
+			return e.tt.Eq(args[0].(*Term), args[1].(*Term))
+		},
 		"vSymbolic": func(e *Engine, caller *frame, fn *ssa.Function, args []Value) Value {
 			return e.tt.Bool(e.cfg.Concrete == nil)
 		},
@@ -591,11 +594,21 @@ func (e *Engine) itoa(x *Term) Str {
 		out = append(out, tt.BVConst('-', 8))
 	}
 	ds := make([]*Term, digits)
-	cur := mag
+	// mag < 10^digits on this path: divide in the narrowest sufficient width
+	w := 64
+	switch {
+	case digits <= 2:
+		w = 8
+	case digits <= 4:
+		w = 16
+	case digits <= 9:
+		w = 32
+	}
+	cur := tt.Extract(mag, w-1, 0)
 	for i := digits - 1; i >= 0; i-- {
-		d := tt.URem(cur, tt.BVConst(10, 64))
+		d := tt.URem(cur, tt.BVConst(10, w))
 		ds[i] = tt.Add(tt.Extract(d, 7, 0), tt.BVConst('0', 8))
-		cur = tt.UDiv(cur, tt.BVConst(10, 64))
+		cur = tt.UDiv(cur, tt.BVConst(10, w))
 	}
 	out = append(out, ds...)
 	return e.mkStr(out)
@@ -616,7 +629,10 @@ func (e *Engine) mkFmtError(fn *ssa.Function, args []Value) Value {
 			}
 		}
 	}
-	fmtPkg := fn.Pkg
+	fmtPkg := e.prog.ImportedPackage("fmt")
+	if fmtPkg == nil {
+		panic(engineError{"fmt package not loaded"})
+	}
 	if w, ok := wrapped.(Iface); ok && w.T != nil {
 		t := fmtPkg.Type("wrapError")
 		cell := Value(Struct{format, wrapped})
